@@ -46,6 +46,7 @@ type fakePeer struct {
 	version int
 	everStalled bool
 	c11cursor   int
+	c03cursor   int
 	disturbed   bool // its connection or the node's outbound stream to it was ever torn down
 	recv    []wireObs
 	rbuf    []byte
